@@ -6,7 +6,7 @@ CONSTANT Deviations = {}
 CONSTANT Base = 4096
 CONSTANT Starts = {"0", "1", "2", "4", "prev"}
 CONSTANT Lens = {1, 3}
-CONSTANT Sizes = {0, 5}
+CONSTANT Sizes = {99999, 5}
 INVARIANT Strict
 INVARIANT SameAsFunction
 INVARIANT MergePrefix
